@@ -70,6 +70,8 @@ func genC12(p *sim.Plan, r *sim.Rand, tier string) {
 		p.Ops = append(p.Ops, sim.Op{At: int64(r.Intn(1200)) * 1_000_000, Actor: 80, Kind: "bcast", I: []int64{int64(b + 1)}})
 	}
 	p.Horizon = int64(8 * time.Second)
+	// several handlers for one event name: the middleware stands before each of them
+	p.SetB("dup_handlers", r.Bool(0.5))
 }
 
 type c12Reject struct {
@@ -202,6 +204,13 @@ func runC12(e *sim.Env) {
 		s.Socket.OnEvent("ackd", func(a string, n int, ack func(int)) { rec("ackd", a, n); ack(n) })
 		s.Socket.OnEvent("bad", func(a string, n int) { rec("bad", a, n) })
 		s.Socket.OnEvent("cont", func(a string, n int) { rec("cont", a, n) })
+		if p.B("dup_handlers") {
+			s.Socket.OnEvent("str", func(a string, n int) { rec("str", a, n) })
+			s.Socket.OnEvent("bad", func(a string, n int) { rec("bad", a, n) })
+			s.Socket.OnceEvent("bad", func(a string, n int) { rec("bad", a, n) })
+			s.Socket.OnEvent("cont", func(a string, n int) { rec("cont", a, n) })
+			s.Socket.OnEvent("cont", func(a string, n int) { rec("cont", a, n) })
+		}
 	}
 	srv = w.StartServer(world.ServerOpts{PingInterval: 25 * time.Second, PingTimeout: 20 * time.Minute, UpgradeTimeout: 20 * time.Minute, Configure: configure})
 
